@@ -295,9 +295,10 @@ func debugTwin(c *rig.Ctx) {
 func programs(c *rig.Ctx) {
 	c.Require("program_instructions", "program_key_events")
 	c.Part("programs", c.N(200, 3000), func(i int64, r *rig.Rng) {
-		p := prog.Generate(r, prog.Options{OAMFocus: i%2 == 0, Hardware: i%3 == 0, MBCWrites: i%5 == 0, CartType: -1})
+		p := prog.Generate(r, prog.Options{OAMFocus: i%2 == 0, Hardware: i%3 == 0, MBCWrites: i%5 == 0, CartType: -1, Stops: true})
 		m := rig.MustNew(p.ROM, rig.Opts{})
 		f := lockstep.New(m)
+		f.ThroughStop = true
 		f.Violate = func(prop, class, msg string) {
 			if prop == "C03" || prop == "C01" || prop == "C02" {
 				c.Violate("program-"+prop+"-"+class, msg, map[string]any{"program": p.Describe()})
